@@ -4,7 +4,7 @@ from __future__ import annotations
 from . import scopes
 import re
 
-from . import lib_variant, lib_module, lib_py, lib_guards, lib_gate, lib_schema
+from . import lib_variant, lib_module, lib_py, lib_guards, lib_gate, lib_schema, lib_mem
 
 LEVEL = "other"
 EXPLANATION = ("Option plumbing of all nine simplify options end to end with polarity, no ignored or crossed options, entry "
@@ -22,6 +22,8 @@ def run(ctx):
     lib_module.array_flags(ctx, P, only=ms)
     lib_module.parsed_used(ctx, P, only=ms)
     lib_variant.simplifier_pairs(ctx, P)
+    lib_mem.block_allocator(ctx, P)
+    lib_mem.logical_not_in_mask(ctx, P, tus=["tables", "core"])
     lib_schema.argname(ctx, P, tus=("tables",), funcs=simp)
     lib_schema.row_forwarding(ctx, P, tus=("tables",), funcs=simp)
     lib_gate.gate(ctx, P, only={"tsk_table_collection_simplify", "simplifier_init"})
